@@ -446,8 +446,8 @@ def run_property(prop, tier, out, binary=None):
     #    recorder's observation would have to fold thousands of watched leaves after every call, the hook judge folds the
     #    model's leaf map once per call.  Long enough for any chunked / sliced write path of a storage layer.
     hook_only = set()
-    if prop == "C06":
-        n1, n2 = (2500, 4200) if quick else (9000, 20000)
+    if prop in ("C06", "C15"):
+        n1, n2 = (2500, 17000) if quick else (9000, 40000)        # (the second one longer than 2^14 leaves)
         scenarios.append(("huge-batch", [
             {"c": "reset", "d": 20, "probe": []},
             {"c": "set", "i": 5, "v": 77},
@@ -457,7 +457,14 @@ def run_property(prop, tier, out, binary=None):
             {"c": "delete", "i": 1200},
             {"c": "range", "s": HALF - 2000, "vs": [200000 + k for k in range(n2)]},
             {"c": "delete", "i": HALF},
-            {"c": "append", "v": 80}], ["full", "optimal", "pm"]))
+            {"c": "append", "v": 80},
+            # a fresh tree whose holes are few (the backends' own list of empty positions is short enough to be logged)
+            {"c": "reset", "d": 20, "probe": []},
+            {"c": "set", "i": 3, "v": 81},
+            {"c": "range", "s": 6, "vs": [300000 + k for k in range(n2)]},
+            {"c": "delete", "i": 16390},
+            {"c": "set", "i": 1, "v": 82},
+            {"c": "delete", "i": 6 + n2 - 1}], ["full", "optimal", "pm"]))
         hook_only.add("huge-batch")
     if prop == "C07":
         # C07 judges a tree against its OWN observed values, so it also runs the in-memory backends created with an
